@@ -195,13 +195,19 @@ def runCase (s : St) : String :=
         | .mismatch m => "MISMATCH " ++ m
       else "skipped"
     let cs := certifyCase lr o.root i.root
+    let (gl, glReused) := if clean && !dirtyTree o.root then
+        match gloopValidate lr 1 o.root i.root sc.root with
+        | .ok n => ("ok", n)
+        | .skipped => ("skipped", 0)
+        | .mismatch m => ("MISMATCH " ++ m, 0)
+      else ("skipped", 0)
     let rx := if clean then relexCheck o.root sc.root rs.diffs.toList rs.eofEnd else {}
     let sortedDiffs := (rs.diffs.toList.zip (rs.diffs.toList.drop 1)).all (fun p => p.1.2 ≤ p.2.1) && rs.diffs.all (fun d => d.1 ≤ d.2)
     let corr := match rs.fail, cs.bad with
       | some m, _ => "DIFF " ++ m
       | none, some m => "DIFF reuse certificate: " ++ m
-      | none, none => if doc.startsWith "MISMATCH" then "DIFF LR machine on the real table: " ++ (doc.drop 9).toString else "ok"
-    s!"{s.id} judge={j} corr={corr} clean={if clean then 1 else 0} gate={rs.gate} match={rs.matched} undet={rs.undet} pos_uncertain={rs.posUncertain} reordered={rs.reordered} ext={rs.extChecked} bd={rs.bdChecked} index_skipped={rs.indexSkipped} refusals={rs.refusals} reused_inner={rs.reusedInner} reused_leaf={rs.reusedLeaf} reused_bytes={rs.reusedBytes} lexed={rs.lexed} nodes={i.root.size} rangediffs={rs.diffs.size} coldep={if rs.coldepSeen then 1 else 0} diff_beyond_old_end={if beyond then 1 else 0} lr_doc={(doc.splitOn " ").headD ""} cert_ok={cs.ok} cert_stuck={cs.stuck} cert_glr={cs.amb} cert_skipped={cs.skipped} relex_checked={rx.checked} relex_equal={rx.equal} diffs_sorted={if sortedDiffs then 1 else 0} relex_note={(rx.bad.getD "-").replace " " "_"}"
+      | none, none => if gl.startsWith "MISMATCH" then "DIFF gate loop model: " ++ (gl.drop 9).toString else if doc.startsWith "MISMATCH" then "DIFF LR machine on the real table: " ++ (doc.drop 9).toString else "ok"
+    s!"{s.id} judge={j} corr={corr} clean={if clean then 1 else 0} gate={rs.gate} match={rs.matched} undet={rs.undet} pos_uncertain={rs.posUncertain} reordered={rs.reordered} ext={rs.extChecked} bd={rs.bdChecked} index_skipped={rs.indexSkipped} refusals={rs.refusals} reused_inner={rs.reusedInner} reused_leaf={rs.reusedLeaf} reused_bytes={rs.reusedBytes} lexed={rs.lexed} nodes={i.root.size} rangediffs={rs.diffs.size} coldep={if rs.coldepSeen then 1 else 0} diff_beyond_old_end={if beyond then 1 else 0} lr_doc={(doc.splitOn " ").headD ""} cert_ok={cs.ok} cert_stuck={cs.stuck} cert_glr={cs.amb} cert_skipped={cs.skipped} gloop={(gl.splitOn " ").headD ""} gloop_reused={glReused} relex_checked={rx.checked} relex_equal={rx.equal} diffs_sorted={if sortedDiffs then 1 else 0} relex_note={(rx.bad.getD "-").replace " " "_"}"
   | none, _, _, _ => s!"{s.id} judge=BADINPUT corr=BADINPUT no tables for language {s.lang}"
   | _, _, _, _ => s!"{s.id} judge=BADINPUT corr=BADINPUT unreadable dump"
 
